@@ -50,6 +50,7 @@
 #include <stdlib.h>
 #include <ctype.h>
 #include <limits.h>
+#include <errno.h>
 
 long strtol(const char *nptr, char **endptr, int base) {
 	const char *s = nptr;
@@ -129,6 +130,7 @@ long strtol(const char *nptr, char **endptr, int base) {
 
 	if (any < 0) {
 		acc = neg ? LONG_MIN : LONG_MAX;
+		errno = ERANGE;
 	} else if (neg) {
 		acc = -acc;
 	}
